@@ -245,6 +245,21 @@ class ITE:
         return 'ITE(%r ? %r : %r)' % (self.cond, self.a, self.b)
 
 
+def same_value(a, b):
+    """cheap structural identity of two abstract values (merging equal values needs no guard)"""
+    if a is b:
+        return True
+    if isinstance(a, Ptr) and isinstance(b, Ptr):
+        return a.region is b.region and type(a.off) is type(b.off) and a.off == b.off if not isinstance(a.off, Poly) else (isinstance(b.off, Poly) and a.off.equals(b.off))
+    if isinstance(a, bool) or isinstance(b, bool):
+        return type(a) is type(b) and a == b
+    if isinstance(a, int) and isinstance(b, int):
+        return a == b
+    if isinstance(a, Poly) and isinstance(b, Poly):
+        return a.equals(b)
+    return False
+
+
 class _Return(Exception):
     def __init__(self, value):
         self.value = value
@@ -381,6 +396,7 @@ class Interp:
         self.frames = []
         self.max_depth = max_depth
         self.journal = None  # list of (cell, old) when inside a symbolic branch
+        self.post_returns = []  # [frame, cond, {id(cell): (cell, old)}]: writes made after a return taken under cond
         self.assumptions = []
         self.loops = []  # active symbolic loops
         self.trace_calls = []
@@ -397,6 +413,9 @@ class Interp:
         old = cell.value
         if self.journal is not None:
             self.journal.append((cell, old))
+        for e in self.post_returns:
+            if id(cell) not in e[2]:
+                e[2][id(cell)] = (cell, old)
         cell.value = value
         self.hooks.on_write(self, cell, old, value, node)
 
@@ -464,8 +483,10 @@ class Interp:
             for cond, val in reversed(fr.pending_returns):
                 result = ITE(cond, val, result)
             self.unwind(fr, result)
+            self.merge_post_returns(fr)
             return result
         except Thrown:
+            self.post_returns = [e for e in self.post_returns if e[0] is not fr]
             self.unwind(fr, None)
             if fdecl.get('ctor') and this_cell is not None:
                 self.hooks.on_ctor_abort(self, this_cell, fdecl)
@@ -473,6 +494,29 @@ class Interp:
         finally:
             self.frames.pop()
             self.unit = saved_unit
+
+    def merge_post_returns(self, fr):
+        """the function returned early under a data-dependent condition c and went on under !c: every cell written
+        since then holds its new value only under !c; under c it keeps what it held when the return was taken"""
+        mine = [e for e in self.post_returns if e[0] is fr]
+        if not mine:
+            return
+        self.post_returns = [e for e in self.post_returns if e[0] is not fr]
+        for _fr, cond, written, early in reversed(mine):
+            merged = dict(written)
+            for cid, (cell, v1) in early.items():
+                # written by the returning arm itself: under cond the cell holds that value
+                merged[cid] = (cell, v1)
+            for cid, (cell, old) in merged.items():
+                new = cell.value
+                if (old is UNDEF and cid not in early) or getattr(cell, '_dead', False) or same_value(new, old):
+                    continue
+                if self.journal is not None:
+                    self.journal.append((cell, new))
+                for e in self.post_returns:
+                    if id(cell) not in e[2]:
+                        e[2][id(cell)] = (cell, new)
+                cell.value = ITE(cond, old, new)
 
     # ------------------------------------------------------------------ object lifetimes
     def track(self, cell, kind):
@@ -814,6 +858,26 @@ class Interp:
                 e.where = self.loc(node)
             raise
 
+    def const_global(self, node):
+        """constant object at namespace/class scope (a table, a named constant): evaluated once from its declaration"""
+        cache = self.__dict__.setdefault('_const_globals', {})
+        key = (id(self.unit), node.get('id'))
+        if key in cache:
+            return cache[key]
+        idx = self.unit.__dict__.get('_global_decls')
+        if idx is None:
+            idx = self.unit.__dict__['_global_decls'] = {g['id']: g['decl'] for g in self.unit.globals if 'decl' in g}
+        d = idx.get(node.get('id'))
+        if d is None:
+            return None
+        saved = self.frame.vars.get(d['id'])
+        self.declare(d)
+        c = self.frame.vars.pop(d['id'])
+        if saved is not None:
+            self.frame.vars[d['id']] = saved
+        cache[key] = c
+        return c
+
     def lookup_var(self, node):
         vid = node['id']
         for fr in (self.frame,):
@@ -821,6 +885,11 @@ class Interp:
             if c is not None:
                 return c
         if node.get('global'):
+            if 'cv' in node:
+                return Cell(node['cv'], None, 0, node.get('name'))  # constant with static storage (constexpr / const integral)
+            c = self.const_global(node)
+            if c is not None:
+                return c
             return self.hooks.global_cell(self, node)
         # lambdas capture by reference in the sources of interest: search enclosing frames
         for fr in reversed(self.frames[:-1]):
@@ -1618,6 +1687,14 @@ class Interp:
                 vals = [self.eval(c) for c in init.get('c', [])]
                 for i, v in enumerate(vals):
                     cell.value.cell(i).value = v
+                # elements without an initialiser are value-initialised (arithmetic element types)
+                et = base_type(t)
+                while et.endswith(']'):
+                    et = et[:et.rindex('[')].strip()
+                arr = cell.value
+                if isinstance(arr, Region) and isinstance(arr.size, int) and (is_int_type(et) or is_float_type(et)):
+                    for i in range(len(vals), arr.size):
+                        arr.cell(i).value = self.zero_of(et)
             return
         if init is None:
             bt = base_type(t)
@@ -1683,11 +1760,7 @@ class Interp:
             except Thrown as t:
                 thrown = t
             except _Return as r:
-                if self.journal:
-                    for cell, old in reversed(self.journal):
-                        cell.value = old
-                    raise Unsupported('return under a data-dependent condition after side effects at %s' % self.loc(n))
-                thrown = r
+                thrown = r  # the arm's own writes (if any) take effect under the branch condition only
             finally:
                 self.assumptions.pop()
             j = self.journal
@@ -1708,13 +1781,19 @@ class Interp:
             self.journal = outer
         if t1 is not None and t2 is not None:
             if isinstance(t1, _Return) and isinstance(t2, _Return):
-                raise _Return(ITE(c, t1.value, t2.value))
+                for cid in set(f1) | set(f2):
+                    cell = (f1.get(cid) or f2.get(cid))[0]
+                    a = f1[cid][1] if cid in f1 else cell.value
+                    b = f2[cid][1] if cid in f2 else cell.value
+                    self.write(cell, a if same_value(a, b) else ITE(c, a, b), n)
+                raise _Return(t1.value if same_value(t1.value, t2.value) else ITE(c, t1.value, t2.value))
             if isinstance(t1, _Return) or isinstance(t2, _Return):
                 raise Unsupported('return and throw in the arms of a data-dependent branch at %s' % self.loc(n))
             raise t1
-        for tt, cc in ((t1, c), (t2, c.negate())):
+        for tt, cc, ff in ((t1, c, f1), (t2, c.negate(), f2)):
             if isinstance(tt, _Return):
                 self.frame.pending_returns.append((cc, tt.value))
+                self.post_returns.append([self.frame, cc, {}, dict(ff)])
         if t1 is not None or t2 is not None:
             # one arm diverges: continue with the other under the assumption
             keep, assumption = (f2, c.negate()) if t1 is not None else (f1, c)
@@ -1727,7 +1806,7 @@ class Interp:
             cell = (f1.get(cid) or f2.get(cid))[0]
             a = f1[cid][1] if cid in f1 else cell.value
             b = f2[cid][1] if cid in f2 else cell.value
-            if a is b:
+            if same_value(a, b):
                 nv = a
             else:
                 nv = ITE(c, a, b)
